@@ -89,6 +89,10 @@ struct Case {
 	std::map<long long, long long> towner;        // handler id -> object
 	std::vector<std::string> cancels;             // effective cancel() calls: handler@time
 	std::map<int, std::set<long long> > rdwait;   // device -> read-kind handlers submitted and not completed
+	std::map<int, std::set<long long> > iowait;   // device -> handlers of any descriptor wait / transfer submitted and not completed
+	std::set<long long> close_pending;            // handlers that were outstanding when their device was closed / re-attached / re-assigned
+	bool notowner[NFMAX];                         // owner_ == false: release() or attach() was called
+	std::map<long long, char> iokind;             // 'p' plain wait, 'r' / 'w' composite read / write operation
 } *C = 0;
 
 std::string itos(long long v) { char b[32]; snprintf(b, sizeof(b), "%lld", v); return b; }
@@ -120,6 +124,8 @@ void on_run_s(long long k, std::string const &code)
 	C->pending_posts.erase(k);
 	C->ran.insert(k);
 	for(std::map<int, std::set<long long> >::iterator q = C->rdwait.begin(); q != C->rdwait.end(); ++q) q->second.erase(k);
+	for(std::map<int, std::set<long long> >::iterator q = C->iowait.begin(); q != C->iowait.end(); ++q) q->second.erase(k);
+	C->close_pending.erase(k);
 	if(C->towner.count(k)) { long long ob = C->towner[k]; if(C->tcur.count(ob) && C->tcur[ob] == k) C->tcur.erase(ob); }
 	std::map<long long, std::vector<Op> >::iterator p = C->bodies.find(k);
 	if(p != C->bodies.end()) {
@@ -142,6 +148,21 @@ char xfer_buf[8192];
 struct HAll { long long k; char *buf; void operator()(error_code const &e, size_t n) const { on_run_s(k, code_name(e) + "/" + itos((long long)n)); } };
 
 ptime abs_time(long long ms) { return ptime::milliseconds(BASE_SEC * 1000 + ms); }
+
+// handlers that must be told about the close before the loop sleeps again: plain waits always; a composite operation only when the close
+// also closes the descriptor (owning device).  After a mere cancel() - close / attach / assign of a NON-owning device - the internal handler
+// of a composite operation may already be queued with success (or be queued by an event that arrives before a deferred canceler runs); it
+// then tries the transfer again, and an operation that still would block waits again: it survives the cancel.  On a closed descriptor the
+// retry fails with EBADF instead, so the operation ends in every case.
+void note_close_pending(int f)
+{
+	Case &c = *C;
+	for(std::set<long long>::iterator p = c.iowait[f].begin(); p != c.iowait[f].end(); ++p) {
+		char kd = c.iokind.count(*p) ? c.iokind[*p] : 'p';
+		if(kd != 'p' && c.notowner[f]) continue;
+		c.close_pending.insert(*p);
+	}
+}
 
 void exec_op(Op const &o)
 {
@@ -253,6 +274,7 @@ void exec_op(Op const &o)
 		c.subs.push_back(itos(o.a) + ":" + (t == "I" ? "i" : "o") + itos(f));
 		HEv h = { o.a };
 		if(t == "I") c.rdwait[f].insert(o.a);
+		c.iowait[f].insert(o.a);
 		if(t == "I") c.dev[f]->on_readable(h); else c.dev[f]->on_writeable(h);
 	}
 	else if(t == "RS" || t == "WS") {
@@ -260,6 +282,7 @@ void exec_op(Op const &o)
 		c.subs.push_back(itos(o.a) + ":" + (t == "RS" ? "r" : "w") + itos(f));
 		HXfer h = { o.a };
 		if(t == "RS") c.rdwait[f].insert(o.a);
+		c.iowait[f].insert(o.a); c.iokind[o.a] = (t == "RS" ? 'r' : 'w');
 		if(t == "RS") c.dev[f]->async_read_some(aio::buffer(xfer_buf, sizeof(xfer_buf)), h);
 		else c.dev[f]->async_write_some(aio::buffer(static_cast<char const *>(xfer_buf), 1), h);
 	}
@@ -270,6 +293,7 @@ void exec_op(Op const &o)
 		c.bufs.push_back(buf);
 		HAll h = { o.a, buf };
 		if(t == "RA") c.rdwait[f].insert(o.a);
+		c.iowait[f].insert(o.a); c.iokind[o.a] = (t == "RA" ? 'r' : 'w');
 		if(t == "RA") c.dev[f]->async_read(aio::buffer(buf, size_t(o.c)), h);
 		else c.dev[f]->async_write(aio::buffer(static_cast<char const *>(buf), size_t(o.c)), h);
 	}
@@ -278,9 +302,32 @@ void exec_op(Op const &o)
 	}
 	else if(t == "CL") {
 		if(!c.closedA[f]) {
-			c.idx_of_fd[c.fa[f]] = -1;
-			c.dev[f]->close();
-			c.closedA[f] = true;
+			note_close_pending(f);
+			if(c.notowner[f]) c.dev[f]->close();      // cancels the waits; the descriptor stays open and the device keeps it
+			else {
+				c.idx_of_fd[c.fa[f]] = -1;
+				c.dev[f]->close();
+				c.closedA[f] = true;
+			}
+		}
+	}
+	else if(t == "RL") {
+		if(!c.closedA[f] && !c.notowner[f]) { c.dev[f]->release(); c.notowner[f] = true; }
+	}
+	else if(t == "AT") {
+		// attach the descriptor the device already has (after release()): attach() = close(e) - cancel the waits - then owner_ = false
+		if(!c.closedA[f]) {
+			if(!c.notowner[f]) { c.dev[f]->release(); c.notowner[f] = true; }
+			note_close_pending(f);
+			c.dev[f]->attach(c.fa[f]);
+		}
+	}
+	else if(t == "AS") {
+		// assign the descriptor a NON-owning device already has: close(e) cancels the waits, then owner_ = true
+		if(!c.closedA[f] && c.notowner[f]) {
+			note_close_pending(f);
+			c.dev[f]->assign(c.fa[f]);
+			c.notowner[f] = false;
 		}
 	}
 	else if(t == "W") {
@@ -339,6 +386,9 @@ void nothing_ready(int timeout)
 	if(timeout == 0) return;
 	// stop() was called while the loop polled and the loop is about to sleep: its wake-up was lost
 	if(c.stop_pending) c.flags.insert("LOSTWAKE");
+	// the loop is about to sleep: a handler that was outstanding when its device was closed / re-attached must have been invoked by now
+	// (close() cancels the waits in place or queues the canceler, and a non-empty queue means a zero timeout)
+	if(c.mode.size() == 2 && c.mode[1] == 's' && !c.close_pending.empty()) c.flags.insert("CLOSEPENDING");
 	// the loop is about to sleep for `timeout` ms: no armed timer may have its deadline inside that sleep (property oracle for the
 	// timer half of the wake-up: the timeout computation of run_one and the wake() of set_timer_event while polling_)
 	for(std::map<long long, long long>::iterator p = c.tdeadline.begin(); p != c.tdeadline.end(); ++p)
@@ -497,11 +547,11 @@ bool parse(std::vector<std::string> const &tok, Case &c, std::string &err)
 		else if(t == "P" || t == "PE" || t == "PI" || t == "CT" || t == "CF" || t == "CL" || t == "W" || t == "R" || t == "F" || t == "D" || t == "K" || t == "A") ar = 1;
 		else if(t == "T" || t == "U" || t == "I" || t == "O" || t == "RS" || t == "WS") ar = 2;
 		else if(t == "RA" || t == "WA" || t == "TO") ar = 3;
-		else if(t == "RO" || t == "CO") ar = 1;
+		else if(t == "RO" || t == "CO" || t == "RL" || t == "AT" || t == "AS") ar = 1;
 		if(ar < 0 || !cur) { err = "op " + t; return false; }
 		if(i + ar > tok.size() - 1) { err = "arity " + t; return false; }
 		Op o; o.t = t; o.a = ar >= 1 ? atoll(tok[i + 1].c_str()) : 0; o.b = ar >= 2 ? atoll(tok[i + 2].c_str()) : 0; o.c = ar >= 3 ? atoll(tok[i + 3].c_str()) : 0;
-		bool fdop1 = (t == "RO" || t == "CF" || t == "CL" || t == "W" || t == "R" || t == "F" || t == "D" || t == "K");
+		bool fdop1 = (t == "RL" || t == "AT" || t == "AS" || t == "RO" || t == "CF" || t == "CL" || t == "W" || t == "R" || t == "F" || t == "D" || t == "K");
 		bool fdop2 = (t == "I" || t == "O" || t == "RS" || t == "WS" || t == "RA" || t == "WA");
 		if((t == "RA" || t == "WA") && (o.c < 1 || o.c > 8)) { err = "byte count"; return false; }
 		long long f = fdop2 ? o.b : fdop1 ? o.a : 0;
@@ -547,7 +597,7 @@ std::string loop_case(std::vector<std::string> const &tok)
 		setsockopt(sv[0], SOL_SOCKET, SO_SNDBUF, &sz, sizeof(sz));
 		fcntl(sv[0], F_SETFL, fcntl(sv[0], F_GETFL, 0) | O_NONBLOCK);
 		fcntl(sv[1], F_SETFL, fcntl(sv[1], F_GETFL, 0) | O_NONBLOCK);
-		c.closedA[f] = c.closedB[f] = false;
+		c.closedA[f] = c.closedB[f] = false; c.notowner[f] = false;
 		c.dev[f] = new aio::stream_socket(*c.srv);
 		c.dev[f]->assign(sv[0]);
 		c.idx_of_fd[sv[0]] = f;
@@ -566,6 +616,7 @@ std::string loop_case(std::vector<std::string> const &tok)
 			c.srv->reset();
 			c.pending_posts.clear();   // reset() discards the dispatch queue
 			c.rdwait.clear();          // ... and the descriptor table
+			c.iowait.clear(); c.close_pending.clear();
 			// ... including handlers of timers that were already due: they are out of the timer table and will never run
 			for(std::map<long long, long long>::iterator p = c.tdeadline.begin(); p != c.tdeadline.end(); ++p)
 				if(p->second <= c.vms) c.tgone.insert(p->first);
@@ -587,7 +638,8 @@ std::string loop_case(std::vector<std::string> const &tok)
 	for(std::map<long long, aio::deadline_timer *>::iterator p = c.dts.begin(); p != c.dts.end(); ++p) delete p->second;
 	for(std::map<long long, aio::deadline_timer *>::iterator p = c.tobjs.begin(); p != c.tobjs.end(); ++p) delete p->second;
 	for(int f = 0; f < c.nfd; f++) {
-		delete c.dev[f];           // closes side A if still open
+		delete c.dev[f];           // closes side A if still open and owned
+		if(c.notowner[f] && !c.closedA[f]) ::close(c.fa[f]);
 		if(!c.closedB[f]) ::close(c.fb[f]);
 	}
 	delete c.srv;
